@@ -182,4 +182,67 @@ theorem batch_any_order_good (S : Scripts) (rh : HookFn) (hrh : HookOK rh) (w : 
     destructed user 1 and an accept took a new record -/
 example : ∃ evs : List IoEv, evs.length = 3 ∧ evs.Perm [.hup 1, .accept 3, .eof 2] := ⟨[.eof 2, .accept 3, .hup 1], rfl, by decide⟩
 
+/-! ## input_to() and the object sweep (reset / clean_up) -/
+
+/-- call_function_interactive(): when the callback starts, `ip->input_to` is already cleared - the callback may arm a
+    new input_to(), and an error inside it leaves no stale sentence behind that would swallow the next line -/
+theorem input_to_cleared_before_callback (w : W) (id : Nat) (e : Ev) :
+    inputToOf (emit (mapConn w id clearInputTo) e) id = none := by
+  unfold inputToOf
+  have h : findConn (emit (mapConn w id clearInputTo) e) id = findConn (mapConn w id clearInputTo) id := rfl
+  rw [h, findConn_mapConn w id clearInputTo (fun _ => rfl) id]
+  cases hc : findConn w id with
+  | none => rfl
+  | some c =>
+    have := findConn_id w id c hc
+    simp [this, clearInputTo]
+
+/-- set_call(): a second input_to() while one is pending is refused - the first stays -/
+theorem input_to_first_wins (t1 t2 : String) (c : Conn) (h : c.inputTo = some t1) : (armInputTo t2 c).inputTo = some t1 := by
+  unfold armInputTo; simp [h]
+
+/-- the line of a user with a pending input_to() goes to the callback only: neither process_input nor the command
+    parser see it (the trace of that step starts with the `t it` event of this user) -/
+theorem input_to_takes_the_line (rh : HookFn) (w : W) (cg : Oid) (id : Nat) (line tag : String) :
+    (inputToCommand rh w cg id line tag).1 =
+      (if (rh (emit (mapConn w id clearInputTo) (.tIt cg tag line)) cg (.it tag)).2 then
+         (rh (emit (mapConn w id clearInputTo) (.tIt cg tag line)) cg (.it tag)).1
+       else if (rh (emit (mapConn w id clearInputTo) (.tIt cg tag line)) cg (.it tag)).1.inter cg ≠ some id then
+         (rh (emit (mapConn w id clearInputTo) (.tIt cg tag line)) cg (.it tag)).1
+       else promptStage (useConn (rh (emit (mapConn w id clearInputTo) (.tIt cg tag line)) cg (.it tag)).1 id) cg id) := by
+  unfold inputToCommand
+  simp only []
+  split
+  · rfl
+  · split <;> rfl
+
+/-- the prompt is suppressed while an input_to() is pending -/
+theorem no_prompt_while_input_to_pending (w : W) (cg : Oid) (id : Nat) (h : (inputToOf w id).isSome = true) :
+    promptStage w cg id = w := by
+  unfold promptStage
+  split
+  · rfl
+  · simp [h]
+
+/-- **the object sweep, every restart:** look_for_objects_to_swap() - reset() and clean_up() of every due object, the
+    walk restarted after every error, for every fuel - keeps the invariant, for every script oracle -/
+theorem sweep_keeps_invariant (S : Scripts) (fuel hf : Nat) (w : W) (i : Inv w) :
+    Inv (sweepResets (runHook S hf) fuel w) := (sweepResets_step (runHook S hf) (runHook_ok S hf) fuel w i).1
+
+/-- a clean_up() that raises does NOT restore the saved O_RESET_STATE (the C code or-s it back only when the apply
+    returns): modelled quirk - the restarted walk may reset() the object at once.  Stated for a hook that raises. -/
+theorem failing_cleanup_loses_reset_state (rh : HookFn) (w : W) (k : Nat)
+    (h : (rh (emit (touch w (.obj k)) (.tCleanup (.obj k))) (.obj k) .cleanup).2 = true) :
+    (cleanupObject rh w k) = ((rh (emit (touch w (.obj k)) (.tCleanup (.obj k))) (.obj k) .cleanup).1, true) := by
+  unfold cleanupObject
+  simp [h]
+
+/-- ... while a clean_up() that returns gives the flag back -/
+theorem cleanup_restores_reset_state (rh : HookFn) (w : W) (k : Nat)
+    (h : (rh (emit (touch w (.obj k)) (.tCleanup (.obj k))) (.obj k) .cleanup).2 = false)
+    (hd : (rh (emit (touch w (.obj k)) (.tCleanup (.obj k))) (.obj k) .cleanup).1.dead (.obj k) = false)
+    (hs : w.resetState k = true) : (cleanupObject rh w k).1.resetState k = true := by
+  unfold cleanupObject
+  simp [h, hd, hs]
+
 end NV.C09
